@@ -130,6 +130,13 @@ def run(ctx):
                     involves_len = True
             if not involves_len:
                 continue
+            # only a guard on the decoder's own source buffer can depend on segmentation: a guard on an opened / derived
+            # complete unit (an authenticated header, a split-off chunk) answers Err for every segmentation alike
+            lg = an.len_guards.get(fn, {})
+            if blk in lg and not lg[blk]:
+                ctx.ob("R4b", fn, "short-input-is-need-more-not-error", loc(t["sp"]), True,
+                       "length guard on a derived (complete) buffer, not on the stream: Err is the same for every segmentation", nontrivial=False)
+                continue
             for tgt in (ft, tt):
                 reach_b = b.reach_from(tgt)
                 errs = [x for x in reach_b if rv.get(x) in ("Err",)]
